@@ -77,7 +77,7 @@ class C20(Check):
     assumptions = ["reference = binder validated against symtable per module", "names ending in '=' (keyword-argument proposals) are not judged",
                    "class-body names are visible only inside that body; comprehension/lambda interiors and def/class/import/global lines are not judged for completeness"]
     chunksize = 1
-    budget_quick = 250
+    budget_quick = 450
 
     def bound_text(self, tier):
         return "%d modules x every offset x 2 variants x 4 settings" % len(mods())
